@@ -445,9 +445,9 @@ func mustTwin(list []spec.Pair) *url.SearchParams {
 
 // ---- generators ---------------------------------------------------------------------------------------
 
-var c11Names = []string{"a", "b", "c", "d", "a", "b", "", "aa", "ab", "A", "a b", "a&b", "a=b", "a+b", "a%b", "%41", "%2B", "%26", "%", "#", "?", "é", "ü", "日本", "💩", "", "�", "'", "\"", "<", "a\x00", "~", "*", "-._", "[]", "%zz", "&", "=", "+", " "}
-var c11Values = []string{"", "1", "2", "3", "x", "y", "1", "", "a b", "1+1", "1%2B1", "a&b", "a=b", "c=d=e", "%", "%25", "%41", "#f", "?", "é", "💩", "", "100%", " ", "+", "&", "=", "'", "\"<>", "\x7f", "%C3%A9", "%FF", "~!*()", "%E2%82"}
-var c11QueryAtoms = []string{"a", "b", "c", "=", "=", "&", "&", "&&", "+", "%2B", "%26", "%3D", "%25", "%41", "%", "%4", "%zz", "%FF", "%E2%82", "%C3%A9", "%F0%9F%92%A9", "1", "2", " ", "é", "💩", "\xff", "#", "?", "'", "\"", "<", ";", "a=b", "a=1&a=2", "=x", "x=", "==", "&=&", "%00", "\x00", "+%20+"}
+var c11Names = []string{"a", "b", "c", "d", "a", "b", "", "amp;a", "a&amp;b", "&amp;", "aa", "ab", "A", "a b", "a&b", "a=b", "a+b", "a%b", "%41", "%2B", "%26", "%", "#", "?", "é", "ü", "日本", "💩", "", "�", "'", "\"", "<", "a\x00", "~", "*", "-._", "[]", "%zz", "&", "=", "+", " "}
+var c11Values = []string{"", "1", "2", "3", "x", "y", "1", "", "&amp;", "1&amp;amp;2", "amp;", "a b", "1+1", "1%2B1", "a&b", "a=b", "c=d=e", "%", "%25", "%41", "#f", "?", "é", "💩", "", "100%", " ", "+", "&", "=", "'", "\"<>", "\x7f", "%C3%A9", "%FF", "~!*()", "%E2%82"}
+var c11QueryAtoms = []string{"&amp;", "&amp;amp;", "amp;", "&lt;", "&#38;", "a", "b", "c", "=", "=", "&", "&", "&&", "+", "%2B", "%26", "%3D", "%25", "%41", "%", "%4", "%zz", "%FF", "%E2%82", "%C3%A9", "%F0%9F%92%A9", "1", "2", " ", "é", "💩", "\xff", "#", "?", "'", "\"", "<", ";", "a=b", "a=1&a=2", "=x", "x=", "==", "&=&", "%00", "\x00", "+%20+"}
 
 func genQuery(t *rapid.T) string {
 	switch rapid.IntRange(0, 3).Draw(t, "qkind") {
